@@ -1,62 +1,180 @@
-"""C04 - PLS regression is a correct least-squares family (OLS limit, coefficient form, monotone RSS, affine equivariance).
+"""C04 - PLS regression is a correct least-squares family (OLS limit, coefficient form, monotone RSS / R2, affine equivariance).
 
-(M)  Pls.tla, least-squares scope: the ledger's step guards (rss never above the previous value of the same response, never
-     below the least-squares optimum, equal to it at a = rank) imply the ledger invariants (R2 range, floor) on a small
-     alphabet of magnitudes.  The model check of this ledger found a real inconsistency while it was written (an Ols event
-     followed by a later Rss below the optimum was accepted) - the guard that closes it is part of PRss.
-(C)  c04_drv fits real PLS models (X 6..40 x 1..10 full column rank, 1..3 responses, noise 0..dominant, all scaling pairs,
-     1..rank LVs, 3..10 unseen objects), computes per (a, j) the residual sum of squares of recalculated_y, the independent
-     least-squares fit by LAPACK dgels, coefficient-form predictions from PLSBetasCoeff, statistics on unseen objects, paired
-     models of c*y+d (|c| down to 1e-8 / up to 1e8) and of X*s (change of units), the score predictor looped into one output matrix,
-     and a class of cases with one predictor in small units; TLC validates every event against TracePls.tla and keeps the previous rss per response itself.
+Clause table of the statement (spec operator that decides it - event that carries it; all in spec/PlsLs.tla, which EXTENDS the shared
+Pls.tla without changing it; events of the classes that existed before are decided by the very operators PRss / POls / PBeta / PAffine of
+Pls.tla, theorem ThTolBase):
+  S1  "with as many LVs as rank(X) the PLS fitted responses coincide with the OLS fitted responses (computed independently), one or many
+       responses, any scaling of either block"   LOls: full = 1 => err <= TolOlsOf /\\ |rssPls - rssOls| <= TolRssFullOf      - Ols{j,rssPls,rssOls,err,full,bn}
+  S2  "the training RSS never increases when an LV is added"   LRss: rss <= prev[j] + TolMonoOf (prev held by TLC); no model beats the
+       least-squares optimum (floorRss)                                                                                         - Rss{a,j,rss,..}, Ols
+  S3  "R2 is non-decreasing in the LV count"   LRss / R2Guard: the REPORTED R2 of PLSRegressionStatistics is linked to One - rss (centred
+       response) and never falls below the previous reported value of that response (r2prev held by TLC); r2gap ties reported R2 / RMSE
+       to their definitions                                                                                                      - Rss{..,r2gap,r2,dr}
+  S4  "the coefficient form for a LVs predicts exactly what the score-based predictor predicts, training and unseen objects"
+       LBeta: errTrain, errNew <= TolBetaOf for every a in 1..nlv (single response: the form the API returns)                   - Beta{a,errTrain,errNew}
+  S5  "predictions of a single centred response are equivariant to y -> c*y + d"   LAffine (ny = 1, ysc >= 0, c # 0)             - Affine{c,d,off,errTrain,errNew}
+  Q   quantifier: LFit = PFit of Pls.tla + full column rank shapes (n >= p; n = p only uncentred), p <= 10, ny <= 3, nlv <= rank; class
+       tags (shape, block codes, history position / relation) re-derived by TLC                                                  - Fit{...}
+       "all scaling pairs": LOls records the (x option, y option, one / several responses) of every accepted OLS limit, LCovered
+       requires all 7 x 7 x 2 at the end of the stratified run                                                                   - Ols, Covered{count}
+  not stated, modelled (a rejection is an EXTRA-FINDING, never a verdict): bias = |1 - slope| (LBias - Bias), per-column change of units
+  (LXUnits - XUnits), exact fit from the Krylov count on (LExact - Exact), OLS coefficients applied to unseen objects = score-based
+  predictions at nlv = rank (LOlsNew - OlsNew).  As before this round: statistics on unseen objects (LStat),
+  change of units of the whole predictor block (LXScale) and the predictor looped into one output (LReuse) are verdicts.
+
+(M)  Pls.tla, least-squares scope (unchanged): the ledger's step guards imply InvR2Range / InvFloor.  PlsLs.tla: the extended ledger
+     (tolerances that are functions of the logged offsets / objects / least-squares coefficient size, reported-R2 ledger, history ledger)
+     is model-checked with every guard tried at its tolerance and one unit above, for offsets below / at / far above the thresholds:
+     InvR2RangeK, InvFloorK, InvR2Link (reported R2 on the ledger = One - rss on the ledger), InvHist, PropR2Mono; the variant WITHOUT the
+     direct guard on R2 shows PropR2Derived (S3 follows from S2 + the link); theorems ThTolBase (below 1000 spreads every tolerance IS the
+     old one), ThTolMonotone, ThTolMeaningful are checked as assumptions (TLC found two 32-bit overflows in them while they were written).
+(C)  c04_drv fits real PLS models.  mode base: the problems of the earlier rounds (X 6..40 x 1..10, n >= p+2, 1..3 responses, noise
+     0..dominant, all scaling pairs, 1..rank LVs, 3..10 unseen objects, every eighth case one predictor in small units).  mode pairs: the
+     quantifier "all scaling pairs, one or many responses" stratified - 7 x 7 option pairs x {ny = 1, ny > 1} at nlv = rank; the ledger keeps
+     the set of strata on which the OLS limit was accepted and the trace ends with the event that requires all 98 (LCovered).  mode cls: the
+     input / history classes of INPUT-CLASSES.md inside the quantifier - K1 n = p+1, n = p+2, square X used uncentred, single predictor,
+     one / two unseen objects, more unseen than training objects, nlv = 1 with several responses; K2 n around 8 / 16 / 32 / 40, p and nlv around 4 and 8; K3 centred
+     predictors / responses 1e2..1e8 spreads from the origin, affine maps with |d| up to 1e8 spreads; K4 whole blocks in units 1e-6..1e5,
+     per-column unit systems 2^-8..2^15; K5 grids of 0.1, 1/3, 1e-3; K7 fit A, fit A' (same dimensions, other data), fit B (other
+     dimensions), fit A again in ONE process, every one projected in full, output objects carried from fit to fit / already sized and
+     holding other data / of another shape, model objects at the address a freed model had (measured per fit: End.addr; AddressSanitizer's
+     quarantine is switched off in this mode so that addresses really are reused); K8 responses that are exact linear functions of X with an exact fit BEFORE nlv = rank
+     (orthogonal predictor groups; two-level design with an exactly zero residual -> null latent variables), duplicated / mirrored /
+     dependent responses, duplicate objects.  Per model: RSS per (a, j), reported R2 / RMSE / bias, independent least squares (LAPACK
+     dgels on the design centred in extended precision), coefficient form, statistics on unseen objects, paired models of c*y+d and X*s.
+     TLC validates every event against TracePlsLs.tla, holding the previous rss / reported R2 per response and the history of the process.
 """
-import os, shutil
+import copy, os, shutil
+from concurrent.futures import ThreadPoolExecutor
 from vf import build, tlc, trace, ledgerkit
 from vf import run as hrun
 from vf.core import InfraError
 
 LEVEL = "exploration"
 READY = True
-TECHNIQUE = ("TLC model checking of the monotone least-squares ledger of Pls.tla + TLC trace validation (TracePls.tla) of residual sums of squares, "
-             "OLS-limit, coefficient-form and affine-equivariance residuals recorded from real PLS models against LAPACK dgels")
-LEVEL_TEXT = ("Sampled exploration: seeded random regression problems inside the property's quantifier are fitted by the real library; for every model "
-              "the per-response residual sums of squares for a = 1..nlv, the independent least-squares optimum (LAPACK dgels), coefficient-form vs "
-              "score-form predictions on training and unseen objects, reported R2/RMSE and a paired affine run are logged and TLC validates each "
-              "step of the ledger, holding the previous rss of every response in the specification's state.")
-LEVEL_NOTE = ("Trusts TLC, LAPACK dgels/dgesdd as independent oracles, the harness's double-precision residual evaluation and quantisation (binding "
-              "self-test corrupts one logged residual). Sampled, not exhaustive. For scaling option -1 (no centring) the least-squares reference is the "
-              "design the model then spans (no intercept column); with both blocks centred it is dgels on [1 X].")
+TECHNIQUE = ("TLC model checking of the least-squares ledger (Pls.tla) and of its extension PlsLs.tla (tolerance functions of the logged offsets, reported-R2 "
+             "ledger linked to the rss ledger, history ledger; theorems on the tolerance functions as checked assumptions; S3 derived from S2 + link) + TLC trace "
+             "validation (TracePlsLs.tla) of residual sums of squares, reported R2, OLS-limit, coefficient-form and affine-equivariance residuals recorded "
+             "from real PLS models of every input / history class inside the quantifier against LAPACK dgels")
+LEVEL_TEXT = ("Sampled exploration: seeded random regression problems inside the property's quantifier - the base problems and the classes K1 (n = p+1, n = p+2, "
+              "square uncentred, single predictor, one unseen object, more unseen than training objects), K2 (block-size boundaries of n, p, nlv), K3 (offsets up to 1e8 spreads on centred blocks, affine "
+              "d up to 1e8 spreads), K4 (whole-block units 1e-6..1e5, per-column units 2^-8..2^15), K5 (tied grids), K7 (four fits per process, outputs holding other "
+              "data, model addresses reused), K8 (exact fit before nlv = rank, null latent variables, dependent responses, duplicate objects) - are fitted by the real library; for every model "
+              "the per-response residual sums of squares and reported R2 for a = 1..nlv, the independent least-squares optimum (LAPACK dgels), coefficient-form vs "
+              "score-form predictions on training and unseen objects, reported R2/RMSE and paired affine / change-of-units runs are logged and TLC validates each step "
+              "of the ledger, holding the previous rss and reported R2 of every response and the fit history of the process in the specification's state.")
+LEVEL_NOTE = ("Trusts TLC, LAPACK dgels/dgesdd as independent oracles, the harness's double / extended precision residual evaluation and quantisation (binding self-tests "
+              "corrupt one logged field per event kind). Sampled, not exhaustive. For scaling option -1 (no centring) the least-squares reference is the design the model "
+              "then spans (no intercept column); a centred block is centred in extended precision before dgels. Classes left out because the quantifier / statement "
+              "excludes them: wide X and square X with a centring option ('full-column-rank X': the preprocessed X then has rank n-1 < p; C03 covers those shapes), K6 "
+              "(PLS, PLSBetasCoeff, PLSYPredictorAllLV, PLSRegressionStatistics reach no MT_* kernel and spawn no workers), K9 (the statement does not mention missing "
+              "values; all values stay below 1e7, far from the MISSING code), K10 (no labels), constant predictors / responses (full column rank, non-constant Y), K3 "
+              "offsets on a block used uncentred (option -1: the offset is signal, cond grows with it, no input-computable bound holds) and with level scaling (option 5: "
+              "refused by the zero-scale admission), K4 tiny units on a SCALED block and per-column units below 2^-8 (the library's absolute zero-scale guard 1e-3 is "
+              "C10's business; the small-unit class documents what it does), units above 1e5 (entries would pass 1e7), least-squares coefficient size above 50 on a "
+              "K3 case (tolerance arithmetic). Outside the statement (EXTRA-FINDING only): bias statistic, per-column change of units, exactness from the Krylov count "
+              "on. A second PLS() into a used model object is C03's extra finding.")
 
 TOL = 10000
 TOLM = 10
 ONE = 1000000000
+SAT = 2000000000
+BNCAP = 50000
+DRCAP = 1000000
+EXTRA_EVENTS = ("Bias", "XUnits", "Exact", "OlsNew")
+KINDS = ("base", "tall1", "tall2", "square", "block", "offx", "offy", "offxy", "magn", "units", "grid", "hist", "exact", "yrel", "edge", "affoff", "duprow")
+EVENT_KINDS = ("Fit", "Rss", "Ols", "Beta", "Stat", "Affine", "XScale", "Reuse", "End", "Bias", "XUnits", "Exact", "OlsNew")
+CTX_FIELDS = ("n", "p", "ny", "nlv", "xs", "ys", "noise", "rank", "offx", "offy", "kind", "tag", "reuse", "hist", "hrel", "exk", "shape")
+
+
+# ---- mirror of the tolerance functions of PlsLs.tla: used ONLY to word a rejection and to drop same-signature duplicates (TLC decides)
+def _repr(o):
+    return o // 1000
+
+
+def _mean(n, o):
+    return n * (o // 4000)
+
+
+def _tolmono(oy):
+    return TOLM + (4 * _repr(oy)) // 1000 + (1 if oy >= 1000 else 0)
+
+
+def _tolols(n, ox, oy, bn):
+    mx = _mean(n, ox)
+    return TOL + _repr(oy) + _mean(n, oy) + (mx // 1000) * bn + ((mx % 1000) * bn) // 1000
+
+
+def _tolrssfull(n, ox, oy, bn):
+    return _tolmono(oy) + (_tolols(n, ox, oy, bn) - TOL) // 500
+
+
+def _tolbeta(oy):
+    return TOL + _repr(oy)
+
+
+def _tolaff(n, oy, o2):
+    o = max(oy, o2)
+    return TOL + 2 * _repr(o) + _mean(n, o)
+
+
+def _r2slack(oy, dr):
+    t = _tolmono(oy) + 2
+    return t * (dr // 1000) + (t * (dr % 1000)) // 1000 + 2
+
+
+_FIT_OF_CASE = {}
 
 
 def _sig(ev):
     e, cx = ev.get("e"), ev.get("cx", {})
     where = "case %s %s" % (ev.get("case"), cx)
+    n, ox, oy = cx.get("n", 0), cx.get("offx", 0), cx.get("offy", 0)
     if e == "Rss":
         if ev.get("r2gap", 0) > TOL:
             return "PLS:r2", "%s: reported R2 / RMSE of LV %d response %d differ from 1 - RSS/TSS, sqrt(RSS/n) by %.3g" % (where, ev["a"], ev["j"], ev["r2gap"] * 1e-12)
-        if ev["rss"] > ev.get("prev_", ONE) + TOLM:
+        if ev["rss"] > ev.get("prev_", ONE) + _tolmono(oy):
             return "PLS:monotone", "%s: RSS/D of response %d rises from %.9f to %.9f when LV %d is added" % (where, ev["j"], ev.get("prev_", ONE) * 1e-9, ev["rss"] * 1e-9, ev["a"])
-        return "PLS:monotone", "%s: rss ledger rejected %s" % (where, ev)
+        if ev.get("r2", 0) > ONE + TOLM + 2 or (cx.get("ys", 0) >= 0 and abs(ev.get("r2", 0) - (ONE - ev["rss"])) > TOLM + 2):
+            return "PLS:r2:reported", "%s: LV %d response %d: the reported R2 %.9f is not 1 - RSS/TSS = %.9f of the recalculated responses" % (
+                where, ev["a"], ev["j"], ev.get("r2", 0) * 1e-9, (ONE - ev["rss"]) * 1e-9)
+        if "r2prev_" in ev and ev.get("r2", 0) + _r2slack(oy, min(ev.get("dr", 1000), DRCAP)) < ev["r2prev_"]:
+            return "PLS:r2:monotone", "%s: the reported R2 of response %d falls from %.9f to %.9f when LV %d is added" % (where, ev["j"], ev["r2prev_"] * 1e-9, ev.get("r2", 0) * 1e-9, ev["a"])
+        return "PLS:monotone", "%s: rss ledger rejected %s" % (where, {k: v for k, v in ev.items() if k != "cx"})
     if e == "Ols":
-        return "PLS:ols", "%s: response %d: RSS(PLS, a=%s)/D = %.9f, RSS(OLS)/D = %.9f, |fitted PLS - fitted OLS| = %.3g (full rank: %d)" % (
-            where, ev["j"], cx.get("nlv"), ev["rssPls"] * 1e-9, ev["rssOls"] * 1e-9, ev["err"] * 1e-12, ev["full"])
+        return "PLS:ols", "%s: response %d: RSS(PLS, a=%s)/D = %.9f, RSS(OLS)/D = %.9f, |fitted PLS - fitted OLS| = %.3g (full rank: %d; tolerance of this input %.3g)" % (
+            where, ev["j"], cx.get("nlv"), ev["rssPls"] * 1e-9, ev["rssOls"] * 1e-9, ev["err"] * 1e-12, ev["full"], _tolols(n, ox, oy, min(ev.get("bn", 0), BNCAP)) * 1e-12)
     if e == "Beta":
-        return "PLS:beta", "%s: LV %d: coefficient form differs from score form by %.3g (training) / %.3g (unseen)" % (where, ev["a"], ev["errTrain"] * 1e-12, ev["errNew"] * 1e-12)
+        null = " (the model holds a null latent variable: PLSBetasCoeff inverts a singular P'W)" if ev["errTrain"] >= SAT and cx.get("tag") == "K8:exact-zero-residual" else ""
+        sig = "PLS:beta:null-lv" if null else "PLS:beta"
+        amt = lambda v: "NaN / not finite" if v >= SAT else "%.3g" % (v * 1e-12)
+        return sig, "%s: LV %d: coefficient form differs from score form by %s (training) / %s (unseen) of sd(y)%s" % (where, ev["a"], amt(ev["errTrain"]), amt(ev["errNew"]), null)
     if e == "Stat":
         return "PLS:r2", "%s: unseen objects, LV %d response %d: reported R2 / RMSE differ from their definitions by %.3g / %.3g" % (where, ev["a"], ev["j"], ev["r2gap"] * 1e-12, ev["rmsegap"] * 1e-12)
     if e == "Affine":
-        return "PLS:affine", "%s: y -> c*y + d with c = %.3g (|c| ~ 1e%d), d = %.3f |c| sd: predictions do not map the same way: %.3g (training) / %.3g (unseen)" % (
-            where, ev["c"] * 1e-3, ev.get("lg", 0), ev["d"] * 1e-3, ev["errTrain"] * 1e-12, ev["errNew"] * 1e-12)
+        return "PLS:affine", "%s: y -> c*y + d with c = %.3g (|c| ~ 1e%d), d = %.4g |c| sd (transformed response %.3g spreads from the origin): predictions do not map the same way: %.3g (training) / %.3g (unseen)" % (
+            where, ev["c"] * 1e-3, ev.get("lg", 0), ev["d"] * 1e-3, float(ev.get("off", 0)), ev["errTrain"] * 1e-12, ev["errNew"] * 1e-12)
     if e == "XScale":
         return "PLS:xscale", "%s: X -> X * s with s ~ 1e%d (change of units): predictions change by %.3g (training) / %.3g (unseen) of sd(y)" % (where, ev["lg"], ev["errTrain"] * 1e-12, ev["errNew"] * 1e-12)
     if e == "Reuse":
         return "PLS:predict:reused-output", "%s: PLSYPredictor called for a = 1..%d into one output matrix differs from recalculated_y by %.3g of sd(y)" % (where, ev["calls"], ev["err"] * 1e-12)
+    if e == "Bias":
+        return "PLS:bias", "%s: LV %d response %d: reported bias differs from |1 - slope of predicted on observed| by %.3g (training) / %.3g (unseen)" % (where, ev["a"], ev["j"], ev["gap"] * 1e-12, ev["gapNew"] * 1e-12)
+    if e == "XUnits":
+        return "PLS:xunits", "%s: per-column change of units 2^k, |k| <= %d, under a per-column scaling option: predictions change by %.3g (training) / %.3g (unseen) of sd(y)" % (where, ev["kmax"], ev["errTrain"] * 1e-12, ev["errNew"] * 1e-12)
+    if e == "OlsNew":
+        return "PLS:ols:unseen", "%s: response %d, nlv = rank: the independent least-squares coefficients applied to the unseen objects differ from the score-based predictions by %.3g of sd(y)" % (where, ev["j"], ev["err"] * 1e-12)
+    if e == "Exact":
+        return "PLS:exact", "%s: by construction the fit is exact from %s latent variables on; RSS/D at LV %d of response %d is %.3g" % (where, cx.get("exk"), ev["a"], ev["j"], ev["rss"] * 1e-9)
     if e == "Abort":
-        return "PLS:fit:abort:rc%s" % ev.get("rc"), "case %s: the fit did not return (rc=%s)" % (ev.get("case"), ev.get("rc"))
+        f = _FIT_OF_CASE.get(ev.get("case"), {})
+        if ev.get("rc") == 97 and f.get("exk", 0) > 0 and f.get("ny", 1) > 1:
+            return "PLS:fit:no-return:lv-on-rounding-residue", ("case %s %s: PLS() does not return (NIPALS iteration budget of 20000 passes exhausted in LVCalc): several responses that are "
+                                                                "exact linear functions of X are fitted exactly after %d latent variables; the next latent variable is built on rounding residue and the "
+                                                                "iterate alternates for ever (LVCalc has no ceiling on its passes: finding of C18, repair fixes/C18-pls-lvcalc-iteration-cap.diff)"
+                                                                % (ev.get("case"), {k: f.get(k) for k in ("n", "p", "ny", "nlv", "xs", "ys", "tag")}, f.get("exk", 0)))
+        return "PLS:fit:abort:rc%s" % ev.get("rc"), "case %s %s: the fit did not return (rc=%s: 97 iteration budget, 124 watchdog, 99/98 sanitizer, 1000+n signal)" % (
+            ev.get("case"), {k: f.get(k) for k in ("n", "p", "ny", "nlv", "xs", "ys", "tag")}, ev.get("rc"))
     if e == "Shape":
         return "PLS:shape", "%s: model tables have unexpected shapes %s" % (where, ev)
     if e == "Fit":
@@ -65,122 +183,342 @@ def _sig(ev):
 
 
 def _would_fail(e):
-    k = e.get("e")
+    k, cx = e.get("e"), e.get("cx", {})
+    n, ox, oy = cx.get("n", 0), cx.get("offx", 0), cx.get("offy", 0)
     if k == "Rss":
-        return e.get("r2gap", 0) > TOL or e["rss"] > e.get("prev_", ONE) + TOLM
+        return (e.get("r2gap", 0) > TOL or e["rss"] > e.get("prev_", ONE) + _tolmono(oy) or e.get("r2", 0) > ONE + TOLM + 2
+                or (cx.get("ys", 0) >= 0 and abs(e.get("r2", 0) - (ONE - e["rss"])) > TOLM + 2)
+                or ("r2prev_" in e and e.get("dr", 1000) <= DRCAP and e.get("r2", 0) + _r2slack(oy, e.get("dr", 1000)) < e["r2prev_"]))
     if k == "Ols":
-        return (e["full"] == 1 and (e["err"] > TOL or abs(e["rssPls"] - e["rssOls"]) > TOLM)) or e["rssPls"] < e["rssOls"] - TOLM
+        bn = min(e.get("bn", 0), BNCAP)
+        return (e["full"] == 1 and (e["err"] > _tolols(n, ox, oy, bn) or abs(e["rssPls"] - e["rssOls"]) > _tolrssfull(n, ox, oy, bn))) or e["rssPls"] < e["rssOls"] - _tolmono(oy) or (e.get("bn", 0) > BNCAP and ox >= 4000)
     if k == "Beta":
-        return e["errTrain"] > TOL or e["errNew"] > TOL
+        return e["errTrain"] > _tolbeta(oy) or e["errNew"] > _tolbeta(oy)
     if k == "Stat":
         return e["r2gap"] > TOL or e["rmsegap"] > TOL
-    if k in ("Affine", "XScale"):
-        return e["errTrain"] > TOL or e["errNew"] > TOL
+    if k == "Affine":
+        t = _tolaff(n, oy, e.get("off", 0))
+        return e["errTrain"] > t or e["errNew"] > t
+    if k in ("XScale", "XUnits"):
+        return e["errTrain"] > _tolbeta(oy) or e["errNew"] > _tolbeta(oy)
     if k == "Reuse":
         return e["err"] > TOL
+    if k == "Bias":
+        return e["gap"] > TOL or e["gapNew"] > TOL
+    if k == "OlsNew":
+        return (e.get("bn", 0) > BNCAP and ox >= 4000) or (e.get("lev", 0) <= 10 and e["err"] > (TOL if max(ox, oy) < 1000 else _tolols(n, ox, oy, min(e.get("bn", 0), BNCAP) if ox >= 4000 else 0)))
+    if k == "Exact":
+        return e["rss"] > _tolmono(oy)
+    if k in ("End", "Fit", "Reset", "Skip"):
+        return False
     return True
 
 
 def _with_prev(events):
-    """labelling aid only: remember the rss logged before each Rss / Ols event of the same response"""
-    prev = {}
+    """labelling aid only: remember the rss / reported R2 logged before each Rss / Ols event of the same response"""
+    prev, r2 = {}, {}
     for ev in events:
         e = ev["e"]
         if e in ("Reset", "Fit"):
-            prev = {}
+            prev, r2 = {}, {}
         elif e == "Rss":
             ev["prev_"] = prev.get(ev["j"], ONE)
             prev[ev["j"]] = ev["rss"]
+            if ev["j"] in r2:
+                ev["r2prev_"] = r2[ev["j"]]
+            r2[ev["j"]] = ev.get("r2", 0)
         elif e == "Ols":
             ev["prev_"] = prev.get(ev["j"], ONE)
     return events
 
 
+def _strip(ev):
+    return {k: v for k, v in ev.items() if k not in ("cx", "prev_", "r2prev_")}
+
+
 def model_part(ctx):
-    r = tlc.run("Pls", "MC_Pls_ls.cfg", workers=4, timeout=600)
-    ctx.add_tlc(r, "mc_pls_ls")
-    if not r.ok:
-        raise InfraError("Pls.tla (least-squares scope): ledger invariant %s fails:\n%s" % (r.violation, r.trace_text[:1500]))
-    # PBeta / PStat / PAffine are pure checks (ledger state unchanged): "taken" = TLC generated successors through them
-    z = ledgerkit.never_taken(r, ("PFit", "PRss", "POls", "PBeta", "PStat", "PAffine", "PXScale", "PReuse", "PEnd"))
-    if z:
-        raise InfraError("Pls.tla (least-squares scope): actions never taken: %s" % z)
-    ctx.note("Pls.tla ledger (least-squares scope): %d states, invariants InvR2Range InvFloor hold, every action taken" % r.distinct)
+    """five model-checking runs, side by side (each is small; a JVM start and the coverage profile dominate)"""
+    acts = ("LReset", "MFitK", "MRssA", "MOlsA", "MOlsNewA", "MBetaA", "MAffineA", "MXScaleA", "MXUnitsA", "LReuse", "LBias", "LStat", "MExactA", "LEnd")
+    runs = [
+        ("Pls", "MC_Pls_ls.cfg", "mc_pls_ls", ("PFit", "PRss", "POls", "PBeta", "PStat", "PAffine", "PXScale", "PReuse", "PEnd"),
+         "Pls.tla ledger (least-squares scope): %d states, invariants InvR2Range InvFloor hold, every action taken"),
+        ("PlsLs", "MC_PlsLs_quick.cfg" if ctx.quick else "MC_PlsLs_thorough.cfg", "mc_plsls", acts,
+         "PlsLs.tla extended ledger: %d states, InvR2RangeK InvFloorK InvR2Link InvHist InvExk PropR2Mono hold, every action taken; theorems ThTolBase ThTolMonotone ThTolMeaningful hold as assumptions"),
+        ("PlsLs", "MC_PlsLs_derive.cfg" if ctx.quick else "MC_PlsLs_derive_thorough.cfg", "mc_plsls_derive", acts,
+         "PlsLs.tla extended ledger WITHOUT the direct guard on the reported R2: %d states, PropR2Derived holds (S3 follows from S2 + the link to the rss ledger)"),
+        ("PlsLs", "MC_PlsLs_hist.cfg", "mc_plsls_hist", ("LReset", "MFitK", "LEnd"),
+         "PlsLs.tla history ledger: %d states (up to three fits per process), InvHist InvExk hold"),
+    ]
+    with ThreadPoolExecutor(max_workers=min(4, int(os.environ.get("VERIF_WORKERS", "4")))) as ex:
+        futs = [(x, ex.submit(tlc.run, x[0], x[1], workers=2, timeout=1700)) for x in runs]
+        for (module, cfg, label, expected, msg), fu in futs:
+            r = fu.result()
+            ctx.add_tlc(r, label)
+            if not r.ok:
+                raise InfraError("%s.tla (%s): %s fails:\n%s" % (module, cfg, r.violation, r.trace_text[:1500]))
+            # pure checks leave the ledger state unchanged: "taken" = TLC generated successors through them
+            z = ledgerkit.never_taken(r, expected)
+            if z:
+                raise InfraError("%s.tla (%s): actions never taken: %s" % (module, cfg, z))
+            ctx.note(msg % r.distinct)
 
 
-def conformance(ctx, total, parts, only=None):
+def _classes(ctx, f, block):
+    """measured class counts (INPUT-CLASSES.md) of one executed case; shape / block codes / history relation were re-derived by TLC (TFit)"""
+    n, p, nlv, rank = f["n"], f["p"], f["nlv"], f.get("rank", f["p"])
+    ctx.cls("K1:" + f.get("shape", "tall"))
+    if n == p + 2:
+        ctx.cls("K1:n=p+2")
+    ctx.cls("K1:ny=1" if f["ny"] == 1 else "K1:ny>1")
+    ctx.cls("K1:nlv=rank" if nlv == rank else "K1:nlv=1" if nlv == 1 else "K1:1<nlv<rank")
+    if nlv == 1 and rank == 1:
+        ctx.cls("K1:nlv=1")
+    if nlv == 1 and f["ny"] > 1:
+        ctx.cls("K1:nlv=1,ny>1")
+    if p == 1:
+        ctx.cls("K1:single-predictor")
+    if f.get("nnew", 3) <= 2:
+        ctx.cls("K1:unseen<=2")
+    if f.get("nnew", 3) > n:
+        ctx.cls("K1:unseen>training")
+    for nm, v in (("n", n), ("p", p), ("nlv", nlv)):
+        if v >= 4:
+            ctx.cls("K2:%s=4k" % nm if v % 4 == 0 else "K2:%s=4k+%d" % (nm, v % 4))
+        if v >= 7 and v % 8 in (0, 1, 7):
+            ctx.cls("K2:%s=8k" % nm if v % 8 == 0 else "K2:%s=8k+-1" % nm)
+    if f["ny"] == 1 and p > 3 and p % 4:
+        ctx.cls("K2:coefficient-form,unrolled-tail(p)")
+    if f["ny"] == 1 and nlv > 3 and nlv % 4:
+        ctx.cls("K2:coefficient-form,unrolled-tail(nlv)")
+    for nm in ("offx", "offy"):
+        o = f.get(nm, 0)
+        if o >= 1000:
+            ctx.cls("K3:%s>=%s" % (nm, "1e6" if o >= 1000000 else "1e3"))
+    for nm in ("lgx", "lgy"):
+        g = f.get(nm, 0)
+        if g:
+            ctx.cls("K4:%s-units=1e%+d" % (nm[2], g))
+    t = f.get("tag", "-")
+    if t == "pairs":
+        ctx.cls("Q:scaling-pairs-stratified(7x7x{ny=1,ny>1})")
+    if t.startswith(("K4", "K5", "K8")):
+        ctx.cls(t)
+    if f.get("small", -1) >= 0:
+        ctx.cls("K4:one-predictor-below-zero-scale-guard")
+    if f.get("hist", 0) >= 1:
+        ctx.cls("K7:fit#%d-in-process,%s-dimensions" % (f["hist"] + 1, f.get("hrel")))
+    ru = f.get("reuse", 0)
+    if ru:
+        ctx.cls("K7:outputs-%s" % {1: "sized,hold-other-data", 2: "other-shape,hold-other-data", 3: "left-by-previous-fit"}[ru])
+    if f["noise"] == 0 and nlv == rank:
+        ctx.cls("K8:exact-linear,nlv=rank")
+    if any(e["e"] == "End" and e.get("addr", 0) == 1 for e in block):
+        ctx.cls("K7:model-at-address-of-a-freed-model")
+    for e in block:
+        if e["e"] == "Affine":
+            if abs(e.get("lg", 0)) >= 3:
+                ctx.cls("K4:affine|c|=1e%+d" % (3 * (e["lg"] // 3)))
+            if e.get("off", 0) >= 1000:
+                ctx.cls("K3:affine-d>=%s" % ("1e6" if e["off"] >= 1000000 else "1e3"))
+        elif e["e"] == "XScale" and abs(e.get("lg", 0)) >= 3:
+            ctx.cls("K4:xscale=1e%+d" % (3 * (e["lg"] // 3)))
+        elif e["e"] == "Rss" and e["rss"] <= TOLM and e["a"] < nlv:
+            ctx.cls("K8:exact-before-last-lv")
+            break
+
+
+def _case_chunks(events, limit=40000):
+    """split at the first Reset of a case (sub = 0): the fits of one process stay in one trace"""
+    out, cur = [], []
+    for b in tlc.split_blocks(events):
+        first = b and b[0].get("e") == "Reset" and b[0].get("sub", 0) == 0
+        if cur and first and len(cur) + len(b) > limit:
+            out.append(cur)
+            cur = []
+        cur += b
+    if cur:
+        out.append(cur)
+    return out
+
+
+def _drive(exe, rd, prefix, seed, total, parts, mode, timeout=2400, workers=8):
+    """ledgerkit.drive with an environment: in the class mode AddressSanitizer's quarantine is switched off, so that a model object of a later
+    fit of a history really gets the address a freed one had (measured: End.addr); overflow / UB detection is unaffected"""
+    env = dict(ASAN_OPTIONS=hrun.SAN_ENV["ASAN_OPTIONS"] + ":quarantine_size_mb=0:thread_local_quarantine_size_kb=0") if mode == "cls" else None
+    per = (total + parts - 1) // parts
+    jobs, lo, i = [], 0, 0
+    while lo < total:
+        cnt = min(per, total - lo)
+        jobs.append([os.path.join(rd, "%s%d.ndjson" % (prefix, i)), seed, lo, cnt, mode])
+        lo += cnt
+        i += 1
+    res = hrun.run_many(exe, jobs, timeout=timeout, env=env, workers=ledgerkit.par(workers))
+    events, maxima = [], {}
+    for j, h in zip(jobs, res):
+        if h.timed_out:
+            raise InfraError("%s timed out on cases %s..+%s" % (os.path.basename(exe), j[2], j[3]))
+        ev = hrun.read_ndjson(j[0])
+        if h.rc != 0 and not h.san:
+            raise InfraError("%s failed rc=%d on cases %s..+%s: %s" % (os.path.basename(exe), h.rc, j[2], j[3], h.err[-600:]))
+        for line in h.out.splitlines():
+            if line.startswith("M "):
+                for kv in line.split()[1:]:
+                    k, _, v = kv.partition("=")
+                    try:
+                        maxima[k] = max(maxima.get(k, 0.0), float(v))
+                    except ValueError:
+                        pass
+        events += ev
+    return events, maxima, list(zip(jobs, res))
+
+
+def conformance(ctx, total, parts, mode="base", only=None):
     lib = build.build_lib("san")
-    exe = build.build_harness("c04", ["c04_drv.c"], lib)
+    exe = build.build_harness("c04", ["c04_drv.c", ], lib)
     rd = tlc.rundir()
     try:
         if only is not None:
             seed = only["seed"]
-            h = hrun.run(exe, [os.path.join(rd, "r.ndjson"), seed, only["idx"], only.get("count", 1)], timeout=600)
+            mode = only.get("mode", "base")
+            h = hrun.run(exe, [os.path.join(rd, "r.ndjson"), seed, only["idx"], only.get("count", 1), mode], timeout=600,
+                         env=dict(ASAN_OPTIONS=hrun.SAN_ENV["ASAN_OPTIONS"] + ":quarantine_size_mb=0:thread_local_quarantine_size_kb=0") if mode == "cls" else None)
             events, maxima = hrun.read_ndjson(os.path.join(rd, "r.ndjson")), {}
-            results = [([None, seed, only["idx"], only.get("count", 1)], h)]
+            results = [([None, seed, only["idx"], only.get("count", 1), mode], h)]
         else:
             seed = ctx.seed
-            events, maxima, results = ledgerkit.drive(ctx, exe, rd, "c04_", seed, total, parts, timeout=2400)
-        ledgerkit.sanitizer_reports(ctx, results, "PLS", lambda j: dict(kind="range", seed=j[1], first=j[2], count=j[3]))
-        ledgerkit.annotate(events)
+            events, maxima, results = _drive(exe, rd, "c04_%s_" % mode, seed, total, parts, mode, timeout=2400, workers=int(os.environ.get("VERIF_WORKERS", "8")))
+        ledgerkit.sanitizer_reports(ctx, results, "PLS", lambda j: dict(kind="range", seed=j[1], first=j[2], count=j[3], mode=mode))
+        ledgerkit.annotate(events, CTX_FIELDS)
         _with_prev(events)
         fits = [e for e in events if e["e"] == "Fit"]
         if not fits:
-            raise InfraError("c04 harness produced no Fit events")
-        kinds = {k: sum(1 for e in events if e["e"] == k) for k in ("Rss", "Ols", "Beta", "Stat", "Affine", "XScale", "Reuse")}
-        kinds["small_unit_cases"] = sum(1 for e in events if e["e"] == "Fit" and e.get("small", -1) >= 0)
-        kinds["affine_wide"] = sum(1 for e in events if e["e"] == "Affine" and abs(e.get("lg", 0)) >= 3)
-        kinds["xscale_wide"] = sum(1 for e in events if e["e"] == "XScale" and abs(e.get("lg", 0)) >= 3)
-        if only is None and min(kinds.values()) == 0:
-            raise InfraError("c04 harness stopped logging some event kind: %s" % kinds)
-        for f in fits:
-            ctx.case((f["p"], f["ny"], f["nlv"], f["noise"], f["xs"], f["ys"]), True)
+            raise InfraError("c04 harness produced no Fit events (mode %s)" % mode)
         blocks = tlc.split_blocks(events)
         for b in blocks:
+            for e in b:
+                if e["e"] == "Fit":
+                    _FIT_OF_CASE[b[0].get("case")] = e
+        kinds = {k: sum(1 for e in events if e["e"] == k) for k in ("Rss", "Ols", "Beta", "Stat", "Affine", "XScale", "Reuse")}
+        if mode == "pairs":
+            kinds["ols_full"] = sum(1 for e in events if e["e"] == "Ols" and e["full"] == 1)
+        elif mode == "base":
+            kinds["small_unit_cases"] = sum(1 for e in fits if e.get("small", -1) >= 0)
+            kinds["affine_wide"] = sum(1 for e in events if e["e"] == "Affine" and abs(e.get("lg", 0)) >= 3)
+            kinds["xscale_wide"] = sum(1 for e in events if e["e"] == "XScale" and abs(e.get("lg", 0)) >= 3)
+        else:
+            kinds.update({k: sum(1 for e in events if e["e"] == k) for k in EXTRA_EVENTS})
+            kinds.update({"kind_" + k: sum(1 for f in fits if f["kind"] == k) for k in KINDS if k != "base"})
+            kinds["affine_k3"] = sum(1 for e in events if e["e"] == "Affine" and e.get("off", 0) >= 1000000)
+            kinds["ols_full_k3"] = sum(1 for e in events if e["e"] == "Ols" and e["full"] == 1 and max(e["cx"].get("offx", 0), e["cx"].get("offy", 0)) >= 1000000)
+            kinds["hist_fits_2plus"] = sum(1 for f in fits if f.get("hist", 0) >= 1)
+            kinds["outputs_presized"] = sum(1 for f in fits if f.get("reuse", 0) in (1, 2))
+            kinds["model_address_reused"] = sum(1 for e in events if e["e"] == "End" and e.get("addr", 0) == 1)
+        if only is None and min(kinds.values()) == 0:
+            raise InfraError("c04 harness (mode %s) stopped logging some event kind / lost an input class: %s" % (mode, kinds))
+        for b in blocks:
             f = [e for e in b if e["e"] == "Fit"]
-            if not f or any(e["e"] in ("Abort", "Shape") for e in b):
+            if not f:
                 continue
             f = f[0]
+            ctx.case((mode, f["kind"], f["n"] - f["p"] if f["n"] - f["p"] < 3 else 3, f["p"], f["ny"], f["nlv"], f["noise"], f["xs"], f["ys"], f.get("hist", 0)), True)
+            _classes(ctx, f, b)
+            if any(e["e"] in ("Abort", "Shape") for e in b):
+                continue
             cnt = {k: sum(1 for e in b if e["e"] == k) for k in ("Rss", "Stat", "Ols", "Reuse", "End")}
             if cnt != dict(Rss=f["ny"] * f["nlv"], Stat=f["ny"] * f["nlv"], Ols=f["ny"], Reuse=1, End=1):
                 raise InfraError("c04 harness logged an incomplete block for case %s: %s" % (b[0].get("case"), cnt))
+            if f["ny"] == 1 and sum(1 for e in b if e["e"] == "Beta") != f["nlv"]:
+                raise InfraError("c04 harness logged no coefficient-form event for some LV of case %s" % b[0].get("case"))
         for b in blocks:
-            if len(b) < 30 and any(e["e"] == "Affine" for e in b):
-                ctx.sample(dict(case=b[0].get("case"), seed=seed, events=[{k: v for k, v in e.items() if k not in ("cx", "prev_")} for e in b[:16]]), 3)
-        ctx.cov["rule"] = ("seeded random regression problems: n 6..40, p 1..min(10,n-2), ny 1 (even cases) or 2..3, noise class 0 (exact linear) / 5% / 70% / 600% cycling, "
-                           "all 49 scaling pairs -1..5 x -1..5 drawn at random, nlv = rank for half of the cases else 1..rank, 3..10 unseen objects; "
-                           "every eighth case has one predictor in small units (spread 1e-4, below the zero-scale guard: rank p-1, nlv <= p-1); "
-                           "a case = one fitted model plus paired models: c*y+d for single centred responses (|c| 1e-8..1e8 when centring only), X*s (s 1e-8..1e6 without a scaling "
-                           "factor, else as far as the scale factors stay admissible), and the score predictor looped into one output matrix; distinct key = (p, ny, nlv, noise class, xscaling, yscaling); every case is non-trivial")
-        ctx.cov["observed_max"] = dict(maxima)
-        ctx.cov["tolerance"] = dict(TolAlg=1e-8, TolMono="1e-8 of the response's total sum of squares")
-        ctx.cov["events"] = kinds
+            f = next((e for e in b if e["e"] == "Fit"), {})
+            if len(b) < 34 and any(e["e"] == "Affine" for e in b) and (mode == "base" or f.get("offy", 0) >= 1000000 or f.get("exk", 0) > 0):
+                ctx.sample(dict(case=b[0].get("case"), seed=seed, mode=mode, events=[_strip(e) for e in b[:16]]), 3 if mode == "base" else 6)
+        pairs = ctx.cov.setdefault("scaling_pairs_seen", [])
+        for f in fits:
+            if [f["xs"], f["ys"]] not in pairs:
+                pairs.append([f["xs"], f["ys"]])
+        ctx.cov.setdefault("observed_max", {}).update({("%s.%s" % (mode, k)): v for k, v in maxima.items()})
+        ctx.cov.setdefault("events", {})[mode] = kinds
+        ctx.cov["skipped_draws_" + mode] = sum(1 for e in events if e["e"] == "Skip")
+
+        if mode == "pairs" and only is None:
+            # the ledger keeps the set of (x option, y option, one / several responses) on which the OLS limit was accepted; it must be all 98
+            events.append(dict(e="Covered", count=98, case=-1))
 
         def on_reject(ev, idx, block):
             sig, what = _sig(ev)
-            ctx.violation(sig, what, dict(kind="case", seed=seed, idx=ev.get("case"), event={k: v for k, v in ev.items() if k != "cx"}))
+            if ev.get("e") == "Covered":
+                if ctx.violations:
+                    ctx.note("scaling-pair coverage not complete on a trace that carries violations (rejected events were dropped)")
+                    return None
+                raise InfraError("the stratified run did not get the OLS limit decided on all 98 (x option, y option, one / several responses) combinations: %d cases skipped" % sum(1 for e in events if e["e"] == "Skip"))
+            if ev.get("e") in ("Fit", "Reset"):
+                raise InfraError("c04 generator / class tags / history bookkeeping left the ledger's quantifier (machinery, not a verdict): %s" % _strip(ev))
+            ctx.cov.setdefault("rejected_event_kinds", [])
+            if ev.get("e") not in ctx.cov["rejected_event_kinds"]:
+                ctx.cov["rejected_event_kinds"].append(ev.get("e"))
+            if ev.get("e") in EXTRA_EVENTS:
+                ctx.extra(sig, what)
+            else:
+                ctx.violation(sig, what, dict(kind="case", seed=seed, idx=ev.get("case"), mode=mode, event=_strip(ev)))
             return lambda e: e.get("e") == ev.get("e") and _sig(e)[0] == sig and _would_fail(e)
-        ledgerkit.check(ctx, "TracePls", "Trace_Pls.cfg", "Trace_Pls_prop.cfg", events, on_reject, "trace_pls_ls")
+        for i, ch in enumerate(_case_chunks(events, 200000 if mode == "pairs" else 40000)):
+            trace.check_trace(ctx, "TracePlsLs", "Trace_PlsLs.cfg", "Trace_PlsLs.cfg", ch, on_reject, drop="event", label="trace_plsls_%s_%d" % (mode, i), xmx="4g")
         ctx.traces(len(fits))
         return events
     finally:
         shutil.rmtree(rd, ignore_errors=True)
 
 
-def selftests(ctx, events):
-    blocks = [b for b in tlc.split_blocks(events) if not any(e["e"] in ("Abort", "Shape") for e in b)]
-    ev = [e for b in blocks[:40] for e in b]
-    ev = [e for e in ev if not (e["e"] in ("Rss", "Ols", "Beta", "Stat", "Affine", "XScale", "Reuse") and _would_fail(e))]
+def selftests(ctx, base, cls, pairs):
+    """binding: one corrupted field per event kind / per new guard must be rejected by TLC"""
+    def good(events, n, want=lambda b: True):
+        """the first n cases (all fits of a process together) that carry nothing TLC would reject"""
+        cases, order = {}, []
+        for b in tlc.split_blocks(events):
+            c = b[0].get("case")
+            if c not in cases:
+                cases[c] = []
+                order.append(c)
+            cases[c].append(b)
+        out = []
+        for c in order:
+            bs = cases[c]
+            if any(e["e"] in ("Abort", "Shape", "Skip") or (e["e"] in EVENT_KINDS[1:] and _would_fail(e)) for b in bs for e in b):
+                continue
+            if bs[0][0].get("e") != "Reset" or not want(bs[0]):
+                continue
+            out += [e for b in bs for e in b]
+            n -= 1
+            if n <= 0:
+                break
+        return out
+    fit_of = lambda b: next((e for e in b if e["e"] == "Fit"), {})
+    evb = good(base, 14 if ctx.quick else 40)
+    evk3 = good(cls, 12 if ctx.quick else 40, lambda b: fit_of(b).get("kind") in ("offx", "offy", "offxy")) + \
+        good(cls, 4 if ctx.quick else 8, lambda b: fit_of(b).get("kind") == "affoff" and any(e["e"] == "Affine" and e["off"] >= 1000000 for e in b))
+    evh = good(cls, 3 if ctx.quick else 8, lambda b: fit_of(b).get("kind") == "hist")
+    evx = good(cls, 20 if ctx.quick else 60, lambda b: fit_of(b).get("kind") in ("units", "exact", "yrel", "edge"))
 
-    def corrupt_ols(evs):
-        for e in evs:
-            if e["e"] == "Ols" and e["full"] == 1:
-                e["err"] = min(2000000000, max(1, e["err"]) * 1000000)
-                return True
-        return False
+    def bump(kind, field, cond=lambda e: True, factor=1000000):
+        def f(evs):
+            for e in evs:
+                if e["e"] == kind and cond(e):
+                    e[field] = min(SAT, max(1, e[field]) * factor)
+                    return True
+            return False
+        return kind, f
+
+    def setv(kind, field, fn, cond=lambda e: True):
+        def f(evs):
+            for e in evs:
+                if e["e"] == kind and cond(e):
+                    e[field] = fn(e)
+                    return True
+            return False
+        return kind, f
 
     def corrupt_rss(evs):
-        # cross-step logic: raise one rss above its predecessor
         last = {}
         for e in evs:
             if e["e"] in ("Reset", "Fit"):
@@ -188,33 +526,133 @@ def selftests(ctx, events):
             if e["e"] == "Rss":
                 if e["j"] in last and last[e["j"]] + 1000 < 1900000000:
                     e["rss"] = last[e["j"]] + 1000
+                    e["r2"] = ONE - e["rss"]          # keep the link intact: the rss guard itself must reject
                     return True
                 last[e["j"]] = e["rss"]
         return False
 
-    def corrupt_beta(evs):
+    def corrupt_r2_mono(evs):
+        # uncentred response (no link): the reported R2 falls although the rss ledger is untouched
+        seen = set()
         for e in evs:
-            if e["e"] == "Beta":
-                e["errNew"] = min(2000000000, max(1, e["errNew"]) * 1000000)
+            if e["e"] in ("Reset", "Fit"):
+                seen = set()
+            if e["e"] == "Rss":
+                if e["j"] in seen and e["cx"].get("ys", 0) < 0 and e.get("dr", 1000) <= DRCAP and e.get("r2prev_", -SAT) > -SAT // 2:
+                    e["r2"] = e["r2prev_"] - 2 * _r2slack(0, e["dr"]) - 10
+                    return True
+                seen.add(e["j"])
+        return False
+    def corrupt_pairs(evs):
+        # one stratum loses its only case (its y option is logged as another centred one): the coverage event at the end must be rejected
+        for e in evs:
+            if e["e"] == "Fit" and e["ys"] == 1 and e["ny"] == 1 and e["xs"] == 0:
+                e["ys"] = 3
                 return True
         return False
-    trace.binding_selftest(ctx, "TracePls", "Trace_Pls_prop.cfg", ev, corrupt_ols, "binding_olsErr_x1e6")
-    trace.binding_selftest(ctx, "TracePls", "Trace_Pls_prop.cfg", ev, corrupt_rss, "binding_rss_not_monotone")
-    trace.binding_selftest(ctx, "TracePls", "Trace_Pls_prop.cfg", ev, corrupt_beta, "binding_betaNew_x1e6")
+    evp = [e for e in pairs[:pairs.index(next(e for e in pairs if e["e"] == "Reset" and e["case"] == 98))] if e["e"] != "Covered"] + [dict(e="Covered", count=98, case=-1)] \
+        if any(e["e"] == "Reset" and e["case"] == 98 for e in pairs) else list(pairs)
+    def corrupt_aff_off(evs):
+        # an error just above the base tolerance is accepted only because the transformed response is logged far from the origin: understate that offset
+        for e in evs:
+            if e["e"] == "Affine" and e["off"] >= 1000000 and e["cx"]["offy"] < 1000:
+                e["errTrain"] = TOL + 5
+                e["off"] = 0
+                return True
+        return False
+    k3 = lambda e: max(e.get("cx", {}).get("offx", 0), e.get("cx", {}).get("offy", 0)) >= 1000000
+    tests = [
+        (evb, "binding_olsErr_x1e6", bump("Ols", "err", lambda e: e["full"] == 1)),
+        (evb, "binding_rss_not_monotone", ("Rss", corrupt_rss)),
+        (evb, "binding_betaNew_x1e6", bump("Beta", "errNew")),
+        (evb, "binding_reported_r2_off_link", setv("Rss", "r2", lambda e: e["r2"] - 1000, lambda e: e["cx"].get("ys", 0) >= 0)),
+        (evb, "binding_reported_r2_falls_uncentred", ("Rss", corrupt_r2_mono)),
+        (evb, "binding_stat_unseen_x1e6", bump("Stat", "rmsegap")),
+        (evb, "binding_affine_x1e6", bump("Affine", "errNew")),
+        (evb, "binding_xscale_x1e6", bump("XScale", "errTrain")),
+        (evb, "binding_reuse_x1e6", bump("Reuse", "err")),
+        (evb, "binding_fit_blockcode", setv("Fit", "pb", lambda e: (e["pb"] + 1) % 8)),
+        (evb, "binding_fit_rank_tag", setv("Fit", "rank", lambda e: e["p"] - 1, lambda e: e.get("small", -1) < 0 and e["p"] > e["nlv"])),
+        (evk3, "binding_k3_olsErr_above_input_tolerance", setv("Ols", "err", lambda e: 2 * _tolols(e["cx"]["n"], e["cx"]["offx"], e["cx"]["offy"], min(e["bn"], BNCAP)) + 1, lambda e: e["full"] == 1 and k3(e))),
+        (evk3, "binding_k3_rss_above_input_tolerance", ("Rss", corrupt_rss)),
+        (evk3, "binding_k3_affine_above_input_tolerance", setv("Affine", "errTrain", lambda e: 2 * _tolaff(e["cx"]["n"], e["cx"]["offy"], e["off"]) + 1, lambda e: e["off"] >= 1000000)),
+        (evk3, "binding_k3_affine_offset_understated", ("Affine", corrupt_aff_off)),
+        (evk3, "binding_k3_ols_bn_above_cap", setv("Ols", "bn", lambda e: BNCAP + 1, lambda e: e["cx"].get("offx", 0) >= 1000000)),
+        (evk3, "binding_k3_beta_above_input_tolerance", setv("Beta", "errTrain", lambda e: 2 * _tolbeta(e["cx"]["offy"]) + 1, lambda e: e["cx"]["offy"] >= 1000000)),
+        (evh, "binding_hist_position", setv("Fit", "hist", lambda e: e["hist"] + 1, lambda e: e["hist"] >= 1)),
+        (evh, "binding_hist_relation", setv("Fit", "hrel", lambda e: "other" if e["hrel"] == "same" else "same", lambda e: e["hist"] >= 1)),
+        (evh, "binding_hist_reset_sub", setv("Reset", "sub", lambda e: e["sub"] + 1, lambda e: e.get("sub", 0) >= 1)),
+        (evh, "binding_hist_later_fit_olsErr_x1e6", bump("Ols", "err", lambda e: e["full"] == 1 and e["cx"].get("hist", 0) >= 2)),
+        (evp, "binding_scaling_pair_stratum_missing", ("Covered", corrupt_pairs)),
+        (evx, "binding_bias_x1e6", bump("Bias", "gap")),
+        (evb, "binding_olsnew_x1e6", setv("OlsNew", "err", lambda e: 1000000000, lambda e: e["lev"] <= 10)),
+        (evx, "binding_xunits_x1e6", bump("XUnits", "errNew")),
+        (evx, "binding_exact_rss", setv("Exact", "rss", lambda e: 5000)),
+        (evx, "binding_exact_before_exk", setv("Exact", "a", lambda e: e["cx"]["exk"] - 1, lambda e: e["cx"].get("exk", 0) >= 2)),
+    ]
+    rejected = set(ctx.cov.get("rejected_event_kinds", []))
+    todo = []
+    for ev, label, (kind, corrupt) in tests:
+        if not corrupt(copy.deepcopy(ev)):
+            if kind in rejected:
+                ctx.note("%s: every recorded %s event of the sample was rejected by TLC in this run; nothing left to corrupt" % (label, kind))
+                continue
+            if label in ("binding_exact_before_exk", "binding_hist_later_fit_olsErr_x1e6", "binding_reported_r2_falls_uncentred") and ctx.quick:
+                ctx.note("%s: no suitable event in the quick sample" % label)
+                continue
+            raise InfraError("binding self-test could not find a field to corrupt (%s)" % label)
+        todo.append((ev, label, corrupt))
+    with ThreadPoolExecutor(max_workers=min(4, int(os.environ.get("VERIF_WORKERS", "4")))) as ex:      # one JVM start each: run a few side by side
+        for f in [ex.submit(trace.binding_selftest, ctx, "TracePlsLs", "Trace_PlsLs.cfg", [_strip(e) for e in ev], corrupt_of(corrupt), label) for ev, label, corrupt in todo]:
+            f.result()
+    ctx.note("binding self-tests: %d corrupted traces, all rejected by TLC" % len(todo))
+
+
+def corrupt_of(corrupt):
+    """the corrupting functions read the case context (cx): apply them to annotated copies, hand TLC the stripped events"""
+    def f(evs):
+        ledgerkit.annotate(evs, CTX_FIELDS)
+        _with_prev(evs)
+        ok = corrupt(evs)
+        for e in evs:
+            for k in ("cx", "prev_", "r2prev_"):
+                e.pop(k, None)
+        return ok
+    return f
 
 
 def run(ctx):
     ctx.assumptions += [
-        "residual sums of squares, fitted-value differences and statistics gaps are evaluated by the harness in double precision and logged as integers (1e-9 of the response's sum of squares; 1e-12 relative), saturating; TLC decides every comparison and holds the previous rss per response",
-        "the least-squares reference is LAPACK dgels called directly by the harness: on [1 X] when both blocks are centred; for scaling option -1 on the design the model then spans (no intercept column)",
-        "sampled inputs (seeded); TolAlg = 1e-8 relative, monotonicity slack 1e-8 of the total sum of squares; worst values observed on this run are under coverage.observed_max",
-        "inputs admitted inside the quantifier only: cond(preprocessed X) <= 1e3 (dgesdd), non-constant responses, scale factors >= 0.05, nlv <= rank; each fit in a child with one processor, iteration budget and watchdog",
+        "residual sums of squares, fitted-value differences and statistics gaps are evaluated by the harness in double / extended precision and logged as integers (1e-9 of the response's sum of squares; 1e-12 relative), saturating; TLC decides every comparison and holds the previous rss and reported R2 per response and the fit history of the process",
+        "the least-squares reference is LAPACK dgels called directly by the harness on the design the model spans: a centred block is centred in extended precision (same least-squares problem as an intercept column), for scaling option -1 the block is used as it is (no intercept column)",
+        "sampled inputs (seeded); TolAlg = 1e-8 relative, monotonicity slack 1e-8 of the total sum of squares; for a centred block at least 1000 spreads from the origin the tolerances of PlsLs.tla add the representability of the logged offset (2 roundings per entry, n/2 roundings per column mean, the latter times the logged size of the least-squares coefficients); below 1000 spreads they are the old ones (theorem ThTolBase); worst values observed on this run are under coverage.observed_max",
+        "inputs admitted inside the quantifier only: objects >= variables (square only when used uncentred), cond(preprocessed X) <= 1e3 (dgesdd), non-constant responses, scale factors >= 0.05 on scaled blocks, |values| <= 1e7, nlv <= rank; each case in a child with one processor, iteration budget and watchdog",
         "ASan/UBSan build: any sanitizer report during a fit is a violation",
     ]
     model_part(ctx)
-    events = conformance(ctx, 400 if ctx.quick else 40000, 8 if ctx.quick else 16)
+    base = conformance(ctx, 400 if ctx.quick else 40000, 8 if ctx.quick else 16, "base")
+    pairs = conformance(ctx, 98 if ctx.quick else 98 * 8, 4 if ctx.quick else 8, "pairs")
+    cls = conformance(ctx, 480 if ctx.quick else 24000, 8 if ctx.quick else 16, "cls")
+    ctx.cov["rule"] = ("mode base: seeded random regression problems: n 6..40, p 1..min(10,n-2), ny 1 (even cases) or 2..3, noise class 0 (exact linear) / 5% / 70% / 600% cycling, "
+                       "all 49 scaling pairs -1..5 x -1..5 drawn at random, nlv = rank for half of the cases else 1..rank, 3..10 unseen objects; "
+                       "every eighth case has one predictor in small units (spread 1e-4, below the zero-scale guard: rank p-1, nlv <= p-1). "
+                       "mode pairs: the same problems with the pair of scaling options and one / several responses fixed by the case index (7 x 7 x 2 strata) and nlv = rank; "
+                       "TLC keeps the set of strata on which the OLS limit was accepted and the trace ends with the event that requires all 98. "
+                       "mode cls: class by case index % 16: n = p+1; n = p+2; square X (6..10) used uncentred; block boundaries n in {7,8,9,15,16,17,31,32,33,39,40,12,24}, p, nlv in "
+                       "{3,4,5,7,8,9}; centred X / Y / both 1e2..1e8 spreads from the origin; whole blocks in units 1e-6..1e-3 / 1e3..1e5; per-column units 2^-8..2^15 under options "
+                       "1,2,4,5; grids of 0.1, 1/3, 1e-3; histories fit A, A', B, A in one process with the outputs carried along; exact linear responses on orthogonal predictor groups "
+                       "(1..3 distinct eigenvalues) and on a two-level design (exactly zero residual after one LV); duplicated / mirrored / dependent responses; single predictor, "
+                       "one or two unseen objects, ten unseen against 6..9 training objects, nlv = 1 with several responses; affine maps with |d| 1e2..1e8 spreads; duplicate objects; in this mode every output object is fresh / "
+                       "already sized and holding other data / of another shape (drawn per case). A case = one fitted model plus paired models: c*y+d for single centred responses "
+                       "(|c| 1e-8..1e8 when centring only), X*s (s 1e-8..1e6 without a scaling factor, a power of two for predictors far from the origin), the same predictors in "
+                       "their original units (per-column class), and the score predictor looped into one output matrix; distinct key = (mode, class, min(n-p,3), p, ny, nlv, noise, "
+                       "xscaling, yscaling, position in the process); every case is non-trivial")
+    ctx.cov["tolerance"] = dict(TolAlg=1e-8, TolMono="1e-8 of the response's total sum of squares",
+                                K3="with Repr(o) = floor(o/1000) and MeanOf(n, o) = n*floor(o/4000) in 1e-12 of a spread (o = offset in spreads): TolMonoOf = TolMono + floor(4 Repr(offy)/1000) + 1 (1e-9 of D), "
+                                   "TolOlsOf = TolAlg + Repr(offy) + MeanOf(n, offy) + MeanOf(n, offx)*bn, TolAffOf = TolAlg + 2 Repr(o) + MeanOf(n, o) with o = max(offy, offset of c*y+d), "
+                                   "TolBetaOf = TolAlg + Repr(offy); every one equals the base tolerance below 1000 spreads (theorem ThTolBase)")
     try:
-        selftests(ctx, events)
+        selftests(ctx, base, cls, pairs)
     except InfraError as e:
         if not ctx.violations:
             raise
@@ -224,11 +662,11 @@ def run(ctx):
 def replay(ctx, body):
     case = body.get("case") or {}
     if case.get("kind") == "case" and case.get("idx") is not None:
-        conformance(ctx, 1, 1, only=dict(seed=case.get("seed", body.get("seed", ctx.seed)), idx=case["idx"]))
+        conformance(ctx, 1, 1, only=dict(seed=case.get("seed", body.get("seed", ctx.seed)), idx=case["idx"], mode=case.get("mode", "base")))
         ctx.case(("replay", case["idx"]))
         ctx.case(("replay2", case["idx"]))
     elif case.get("kind") == "range":
-        conformance(ctx, 1, 1, only=dict(seed=case["seed"], idx=case["first"], count=case.get("count", 1)))
+        conformance(ctx, 1, 1, only=dict(seed=case["seed"], idx=case["first"], count=case.get("count", 1), mode=case.get("mode", "base")))
         ctx.case(("replay", case["first"]))
         ctx.case(("replay2", case["first"]))
     else:
